@@ -76,5 +76,10 @@ func Close() {
 	if !closed {
 		closed = true
 		close(closeCh)
+		if base != nil {
+			// the cockpit prints its last lines when it is closed: do not return (and let the
+			// process exit) before they are out
+			base.wait()
+		}
 	}
 }
